@@ -100,7 +100,7 @@ func (w *World) directEffects(fn *ssa.Function) *FuncEffects {
 	add := func(kind, detail string, in ssa.Instruction) {
 		fe.Effects = append(fe.Effects, Effect{kind, detail, in})
 	}
-	allInstrs(fn, func(in ssa.Instruction) {
+	allInstrsLocal(fn, func(in ssa.Instruction) {
 		switch x := in.(type) {
 		case *ssa.Send:
 			add("chan-send", desc(x.Chan), in)
@@ -237,7 +237,7 @@ func (w *World) sameGoroutineReach(root *ssa.Function, siteOK func(ssa.CallInstr
 	for len(work) > 0 {
 		p := work[0]
 		work = work[1:]
-		allInstrs(p.Fn, func(in ssa.Instruction) {
+		allInstrsLocal(p.Fn, func(in ssa.Instruction) {
 			c, ok := in.(ssa.CallInstruction)
 			if !ok {
 				return
